@@ -490,17 +490,15 @@ def convert_watchdog(text, args, secs=8.0):
     '''impl.convert under a wall-clock watchdog (a generated deck converts in
     ~10 ms; the hexVertices loop never ends on some malformed plane lists).
     impl.convert catches the exception: conv.exc == 'WatchdogTimeout'.'''
-    import signal
-    old = signal.signal(signal.SIGALRM, _alarm)
-    signal.setitimer(signal.ITIMER_REAL, secs)
+    import common
+    old = common.arm_watchdog(_alarm, secs)   # CPU-time limit + wall-clock backstop
     try:
         try:
             with warnings.catch_warnings():
                 warnings.simplefilter('ignore')
                 return impl.convert(text, args, keep_stdout=False)
         finally:
-            signal.setitimer(signal.ITIMER_REAL, 0)
-            signal.signal(signal.SIGALRM, old)
+            common.disarm_watchdog(old)
     except WatchdogTimeout:
         # the alarm went off outside the try block of impl.convert (clean-up
         # of the scratch directory): still a run that did not end in time
